@@ -12,7 +12,7 @@ import os, configparser, tempfile, shutil
 from harness import runs
 
 ID = "C19"
-THEOREM_MODULES = ["JF.Props.C19", "JF.Props.C19Heap", "JF.Props.C19Loop", "JF.Props.SystemInvResume"]
+THEOREM_MODULES = ["JF.Props.C19", "JF.Props.C19Heap", "JF.Props.C19Loop", "JF.Props.SystemInvResume", "JF.Props.SystemInvResume2"]
 COMPONENTS = []
 ASSUMPTIONS = ["theorem: any deterministic client that talks to the scheduler only through push/trash/get produces the same outputs from two "
                "observationally equal scheduler states; that unpickling the heap scheduler yields an observationally equal state is "
